@@ -6,6 +6,7 @@ import ColoVerif.Proofs.DetPlaceCan
 import ColoVerif.Proofs.DetPlaceAfterLegalize
 import ColoVerif.Model.LegacyLegalize
 import ColoVerif.Model.LegacyDetPlace
+import ColoVerif.Proofs.GeomTie
 /-!
 # C02 — detailed placement keeps the placement legal at every exposed state
 
@@ -282,5 +283,33 @@ example : (match Legalize.legalize LegacyLegalize.defaultParams tiny with
 -- … and what legalization returned is `LegalL` (C01), so `inv_legal` applies to it with `tinyOps`
 example (c' : Circuit) (h : Legalize.legalize LegacyLegalize.defaultParams tiny = .ok c') : Legalize.LegalL c' :=
   Legalize.legalizeWith_legal _ _ tiny c' (by decide) h
+
+/-- The shared geometry layer under `DetPlace.fromCircuit` is *translated from the C++ source*: the definitions
+of `Gen/GeomFns.lean`, regenerated on every run from the clang AST of the bodies of `Rectangle(int,int,int,int)`,
+`isTurn`, `Circuit::x / y / orientation / isFixed / placedWidth / placedHeight / placement` and of the loop of
+`Circuit::rowHeight()` (`none` = throws), are equal as functions to the hand-written `Cell.*` / `Circuit.rowHeight`
+the constructor model uses (cell widths, the standard-cell height test, obstacles).  A semantic change of one of
+these bodies breaks this theorem. -/
+theorem geometry_layer_translated :
+    Gen.Geom.Rectangle_ctor = Rect.mk ∧
+    Gen.Geom.isTurn = Orient.isTurn ∧
+    Gen.Geom.Circuit_x = Cell.x ∧
+    Gen.Geom.Circuit_y = Cell.y ∧
+    Gen.Geom.Circuit_orientation = Cell.orient ∧
+    Gen.Geom.Circuit_isFixed = Cell.fixed ∧
+    Gen.Geom.Circuit_placedWidth = Cell.placedWidth ∧
+    Gen.Geom.Circuit_placedHeight = Cell.placedHeight ∧
+    Gen.Geom.Circuit_placement = Cell.placement ∧
+    Gen.Geom.Circuit_rowHeight = Circuit.rowHeight :=
+  ⟨GeomTie.gen_Rectangle_ctor_eq_model,
+   GeomTie.gen_isTurn_eq_model,
+   GeomTie.gen_Circuit_x_eq_model,
+   GeomTie.gen_Circuit_y_eq_model,
+   GeomTie.gen_Circuit_orientation_eq_model,
+   GeomTie.gen_Circuit_isFixed_eq_model,
+   GeomTie.gen_Circuit_placedWidth_eq_model,
+   GeomTie.gen_Circuit_placedHeight_eq_model,
+   GeomTie.gen_Circuit_placement_eq_model,
+   GeomTie.gen_Circuit_rowHeight_eq_model⟩
 
 end ColoVerif.C02
